@@ -224,7 +224,7 @@ def c10_2(ctx):
     if "key[1:]" in src and "read_varstr(s)" in src:
         out.append(ctx.ok("psbt:NamedPublicKey.parse", "pubkey = key[1:], path data = value", fn, mod, key="named-pub-parse"))
     else:
-        out.append(ctx.bad("psbt:NamedPublicKey.parse", "does not take the pubkey from key[1:] and the path from the value", fn, mod, key="named-pub-parse"))
+        out.append(ctx.err("psbt:NamedPublicKey.parse", "idiom not recognised: pubkey from key[1:], path data from the value", fn, mod))
     mod, fn = rl.get(ctx, "psbt:NamedHDPublicKey.serialize")
     t = WriterExec(ctx.repo, mod, fn, max_inline=0).run()
     txt = fmt_terms(t or [])
